@@ -83,6 +83,7 @@ pub fn run(ctx: &Ctx) {
     blocks.push(Block::new(u_runs(), vec![Cfg::new(I), Cfg::new(I | X), Cfg::new(I | W)], "i, i+x, i+w"));
     blocks.push(Block::new(u_many(if thorough { 120 } else { 30 }), vec![Cfg::new(I), Cfg::new(I | R)], "i, i+r"));
     blocks.push(Block::new(u_kind_triples(), vec![Cfg::new(I), Cfg::new(I | X | E)], "i, i+x+e"));
+    blocks.push(Block::new(Universe::new("U_i4{U+0130,a,A,-,1}", &["\u{130}", "a", "A", "-", "1"], 4, 1, false), vec![Cfg::new(I | R), Cfg::new(I | R | NW), Cfg::new(I | R | ND), Cfg::new(I | R | NS | D), Cfg::new(I | R | W), Cfg::new(I | R | E)], "i+r, i+r+W, i+r+D, i+r+S+d, i+r+w, i+r+e"));
     if !thorough {
         blocks.push(Block::new(u_kind_pairs(2, 2, false), vec![Cfg::new(I)], "i"));
     } else {
